@@ -195,8 +195,10 @@ package mcp
 //@   sets mcpHealthErr := result1
 //@   loop 1 invariant [no_verdict_yet] sends >= old(sends)
 //@   ensures [C18:a_reload_is_verified_only_by_a_200_answer_to_the_probe] result1 == nil ==> sends > old(sends) && lastDoErr == nil && lastRespCode == 200
+// C20 (argument shapes): a call naming an argument outside the tool's argument set is refused, whatever its value
 //@ func validateAllowedKeys
-//@   trusted
+//@   loop 1 invariant [an_unknown_key_seen_so_far_is_recorded] len(unknown) >= 0 && (len(unknown) == 0 ==> forall k string :: k in visited ==> k in allowed)
+//@   ensures [C20:a_key_outside_the_tools_argument_set_is_refused] result == nil && len(allowed) > 0 ==> forall k string :: k in args ==> k in allowed
 
 //@ func (*Server).toolConfigApply
 //@   requires s != nil
